@@ -549,6 +549,12 @@ impl NamingActor {
             for instance_key in keys {
                 let service_key = instance_key.get_service_key();
                 let short_key = instance_key.get_short_key();
+                if let Some(instance) = self.get_instance(&service_key, &short_key) {
+                    if !instance.ephemeral {
+                        // a persistent instance does not depend on the connection that registered it
+                        continue;
+                    }
+                }
                 self.remove_instance(&service_key, &short_key, Some(client_id));
             }
         }
